@@ -20,6 +20,11 @@ for _i, _t in {
   "C07": "HintHonoured is an action property of Alloc.tla (TLC exhaustive); every block of the small pools and the word-boundary blocks of large pools are hinted in every out-state, in 4/16-byte and inside-the-block forms, validated by TLC.",
 }.items():
     CLAIMED[_i] = ("Alloc", "TLA+ model of the allocators (atomic + fine-grained concurrent) checked by TLC; all bounded operation sequences executed on the real allocators and validated by TLC trace checking under the property's lens", _t, _ALLOC_NOTE, "DESIGN.md section 3 C04-C07")
+_RANGE_NOTE = "trusted: harness/range.go (request construction via the codec, yiaddr->index, option 51 decoding, row attribution), TLC; whole-second lease times; database copied at quiescent points; no clock injection (2.1 s real sleeps stand for the model's Tick)"
+CLAIMED["C02"] = ("RangeLease", "TLA+ model of the range plugin (map + table + allocator, restart, clock) checked by TLC; all bounded request histories and long seeded histories executed on the real plugin through Plugin.Setup4 and validated by TLC trace checking; concurrency by in-lock linearization points, 16-goroutine stress and the exclusion probe of the lock-free schedule",
+   "InRange/Unique/Sticky/LeaseTimeOK/DropsOnlyUnknownWhenFull are invariants/action properties of RangeLease.tla (TLC exhaustive: 3 clients, 2 addresses, restarts, clock); every history of the tier's depth on a 2-address range and seeded long histories on word-boundary ranges are run on the real plugin and validated line by line.", _RANGE_NOTE, "DESIGN.md section 3 C02-C03")
+CLAIMED["C03"] = ("RangeLease", "same model; every prefix of every executed history is a crash point: the sqlite file is copied, a fresh Setup4 runs on the copy, all clients are re-queried, remaining capacity is counted and the rows are read; TLC validates each probe against the monitor",
+   "DbRestoresReplied/DbMatchesMemWhenQuiet/DbNoDuplicates/RestartIdempotent/ExpiryOK hold in every state of RangeLease.tla (every state, also between row write and reply, is a crash point); on the real code every quiescent point of every executed history is probed.", _RANGE_NOTE, "DESIGN.md section 3 C02-C03")
 NOT_YET = {}
 
 def main():
